@@ -189,6 +189,10 @@ func (e *Engine) VerifyUnit(c *Contract) (r *FnRun) {
 			r.Unsupported = append(r.Unsupported, fmt.Sprintf("contract %s: loop %d does not exist in the function (%s:%d)", c.Name, ord, c.File, c.Line))
 		}
 	}
+	for _, cname := range r.lockCoverOrd {
+		// a Lock site is covered if some execution of it (there is one per return path for deferred code) is reachable
+		r.addCover(cname, r.lockCovers[cname])
+	}
 	r.checkMonitorsAtExit(fr, retGuard)
 	if retGuard.S != "false" {
 		r.checkFrame(fr, out, retGuard)
@@ -675,6 +679,14 @@ func (r *FnRun) modTargets(fr *Frame, ctx *EvalCtx, e Expr, add func(comp string
 					add(comp, Term{}, true)
 				}
 			}
+		case "maps":
+			if comps, ok := fr.targetComps(e, map[string]types.Type{}, ctx.pkgPath); ok {
+				for _, comp := range comps {
+					add(comp, Term{}, true)
+				}
+				return
+			}
+			ctx.fail("unsupported modifies target %s", ExprString(e))
 		default:
 			ctx.fail("unsupported modifies target %s", ExprString(e))
 		}
